@@ -569,5 +569,9 @@ class Program:
     def stats(self):
         nb = sum(len(f.blocks) for f in self.functions.values())
         nc = sum(1 for f in self.functions.values() for nd in f.nodes if nd and nd.get("k") == "call")
-        return {"units": len(self.units), "functions": len(self.functions),
-                "cfg_blocks": nb, "call_sites": nc}
+        st = {"units": len(self.units), "functions": len(self.functions),
+              "cfg_blocks": nb, "call_sites": nc}
+        if self.inlined:
+            # helpers outside the pinned vocabulary that were flattened into their callers
+            st["flattened_helpers"] = {k: v for k, v in sorted(self.inlined.items())}
+        return st
